@@ -137,6 +137,7 @@ func rulesC01(c *Ctx) {
 	R.Rule("R1", "signing (swap) and paying/settling (melt) are cut by: inputs not spent, not pending, no duplicates, read errors not swallowed, Ys derived from the inputs", 14)
 	R.Rule("R3", "swap returns success only after the inputs were inserted into the spent table", 1)
 	R.Rule("R4", "melt pays/settles only after LOCK(inputs, quote) succeeded and the stored quote state was neither PAID nor PENDING", 9)
+	R.Rule("R5", "melt op / poll: inputs are marked spent only behind success facts, released only behind definitive-failure facts; census of every unlock/mark-spent/quote-write site", 30)
 	R.Rule("R6", "spent/pending tables: y PRIMARY KEY, secret UNIQUE; plain INSERT for every input in one transaction with rollback and commit", 14)
 	R.Rule("R7", "every site that computes a Y uses hex(compressed(hash_to_curve(secret)))", 5)
 	R.Rule("R8", "no statement outside migrations deletes/updates/drops the spent table; migrations are not destructive", 3)
@@ -239,6 +240,7 @@ func rulesC01(c *Ctx) {
 		}
 	}
 
+	c.meltDecisionTable("R5", false)
 	c.c01Schema()
 	c.c01YSites()
 	c.c01NoErase()
